@@ -30,9 +30,11 @@
     labware is [cinv]; [rack_csim L r] = [rack_sim L r], the rack's table is well-shaped, and
     [cfrac (rk_comp r) k j == cfrac (lw_comp L) k j] for all [k], [j]; [csim s rb] = [Forall2 rack_csim];
     [tr_op o]: [o] is a transfer or a record-only call.  Proved for pipetting steps, transfers and programs of
-    transfers; the composition part for [distribute] is open (see the end of this file). *)
+    transfers, and (last section of this file) for [distribute] and programs of transfers and distributes.
+    The section "the rendered worklist" relates the TEXT of the records to the tracked volumes. *)
 From Robo Require Import Prelude Str Wells Utils Labware Tips Records Partition Params Worklist EvoCmd
   Program Invariants Robot LabwareProofs RefinementProofs.
+From Robo Require Import Gwl RecordsProofs RefinementTextProofs.
 From Coq Require Import Sorting.Sorted.
 #[local] Open Scope Q_scope.
 
@@ -334,10 +336,320 @@ Example C01_example_composition :
   end.
 Proof. vm_compute. repeat split; reflexivity. Qed.
 
-(** C01_composition for [distribute] — NOT PROVED.  Wanted: [csim] (volumes and compositions) after an accepted
+(** (note kept from the previous state of this file; SUPERSEDED by "composition after distribute" below)
+    C01_composition for [distribute] — NOT PROVED.  Wanted: [csim] (volumes and compositions) after an accepted
     [distribute], hence [C01_composition_run] for programs of OTransfer and ODistribute.  The volume part is
     [C01_distribute]; for the compositions the R record dispenses in ascending position order while the tracking
     adds in the order of the destination ids, and several positions of a destination trough address the same
     real well, so the lock-step argument of [C01_composition_exec_step] does not apply directly: missing is the
     closed form (V f_k + n v g_k) / (V + n v) after n additions of the same liquid to a well (on both sides),
     which makes the result independent of the order. *)
+
+
+(* ================================================================== the rendered worklist (C01_rendered) *)
+
+(** The robot executes a TEXT file.  Definitions (Proofs/RefinementTextProofs.v):
+    [srec_of_prec]: a record parsed by the independent parser of Spec/Gwl.v as a structured record, the A / D
+      volume being hundredths / 100, the R volume the int written or (a float) integer part + fraction digits;
+    [read_line l] = [parse_record l] then [srec_of_prec]; [read_lines]: all lines or nothing;
+    [interp_text c d rb lines] = [interp c d rb] of [read_lines lines];
+    [rec_valid r]: the hypotheses of C09_roundtrip_AD / C09_roundtrip_R / C09_roundtrip_simple for [r]
+      (no separator in a text field, non-negative position / volume / counts, wash scheme 1..4, no script command);
+    [cents_ok r]: the volume of an A / D record is a multiple of 1/100; [r_int r]: the volume of an R record is an int;
+    [rack_eqv r r']: same name, geometry, limits, [Forall2 Qeq] volumes (= [rack_sim] between two racks);
+    [hit_ad d names geoms label p k j]: label finds rack number [k] and position [p] is real well [j] of it;
+    [hits d names geoms recs k j]: number of A / D records of [recs] that address real well [j] of rack [k];
+    [racks_near E rs rs']: same names and geometries, same limits, |volume' - volume| <= E k j for well j of rack k;
+    [op_text_ok o]: DiTi index of set_diti, diti_reuse and multi_disp of distribute are not negative (the methods
+      do not validate them) and the volume of distribute is an int. *)
+
+(** C01_rendered_record, A / D: the text of an A or D record that [aspirate_well] / [dispense_well] can emit is
+    read back as a record addressing the same rack label and position, all other text fields the same, with a
+    volume within 1/200 of the requested one, equal to it when the requested volume has at most two decimals *)
+Theorem C01_rendered_record_AD : forall f : adfields,
+  rc_ad_nosep f -> (0 <= ad_position f)%Z -> 0 <= ad_volume f ->
+  exists f', read_line (render (RA f)) = Some (RA f') /\ read_line (render (RD f)) = Some (RD f') /\
+    ad_rack_label f' = ad_rack_label f /\ ad_position f' = ad_position f /\
+    Qabs (ad_volume f' - ad_volume f) <= 1 # 200 /\
+    (forall z, ad_volume f * 100 == inject_Z z -> ad_volume f' == ad_volume f) /\
+    ad_rack_id f' = ad_rack_id f /\ ad_rack_type f' = ad_rack_type f /\ ad_tube_id f' = ad_tube_id f /\
+    ad_liquid_class f' = ad_liquid_class f /\ ad_tip f' = ad_tip f /\
+    ad_forced_rack_type f' = ad_forced_rack_type f.
+Proof. exact rendered_AD. Qed.
+Print Assumptions C01_rendered_record_AD.
+
+(** [prepare_ad] guarantees these hypotheses *)
+Theorem C01_rendered_record_prepared : forall a m f, prepare_ad a m = Ok f ->
+  rec_valid (RA f) /\ rec_valid (RD f).
+Proof. exact prepare_ad_valid. Qed.
+Print Assumptions C01_rendered_record_prepared.
+
+(** C01_rendered_record, R: labels, ids, types, ranges, exclusions, liquid class, DiTi reuse, multi-dispense and
+    direction are read back as they are; the volume exactly when it is an int *)
+Theorem C01_rendered_record_R : forall f : rfields, rc_r_nosep f -> rc_r_nonneg f ->
+  match r_volume f with PyI z => (0 <= z)%Z | PyF _ => True end ->
+  exists v, read_line (render (RR f)) = Some (RR (set_r_volume f v)) /\
+    (forall z, r_volume f = PyI z -> v = PyI z /\ set_r_volume f v = f).
+Proof. exact rendered_R. Qed.
+Print Assumptions C01_rendered_record_R.
+
+(** C01_rendered_record, W / WD / F / B / C / S: read back as themselves *)
+Theorem C01_rendered_record_simple :
+  read_line (render (RW None)) = Some (RW None) /\
+  (forall n, (1 <= n <= 4)%nat -> read_line (render (RW (Some n))) = Some (RW (Some n))) /\
+  read_line (render RWD) = Some RWD /\ read_line (render RF) = Some RF /\ read_line (render RB) = Some RB /\
+  (forall t, rc_nosep t -> read_line (render (RC t)) = Some (RC t)) /\
+  (forall i, (0 <= i)%Z -> read_line (render (RS i)) = Some (RS i)).
+Proof. exact rendered_simple. Qed.
+Print Assumptions C01_rendered_record_simple.
+
+(** C01_rendered_exact, the records: with at most two decimals in every A / D volume and int R volumes the
+    file is read back as the record list, up to [==] on the A / D volumes *)
+Theorem C01_rendered_records_exact : forall recs,
+  Forall rec_valid recs -> Forall r_int recs -> Forall cents_ok recs ->
+  exists recs', read_lines (map render recs) = Some recs' /\
+    Forall2 (fun r r' => match r with
+                         | RA f => exists f', r' = RA f' /\ ad_rack_label f' = ad_rack_label f /\
+                                     ad_position f' = ad_position f /\ ad_volume f' == ad_volume f
+                         | RD f => exists f', r' = RD f' /\ ad_rack_label f' = ad_rack_label f /\
+                                     ad_position f' = ad_position f /\ ad_volume f' == ad_volume f
+                         | _ => r' = r
+                         end) recs recs'.
+Proof. exact rendered_records_exact. Qed.
+Print Assumptions C01_rendered_records_exact.
+
+(** C01_rendered_exact: ... and executing the file gives the robot that executing the records gives *)
+Theorem C01_rendered_exact : forall d rb recs rb1,
+  Forall rec_valid recs -> Forall r_int recs -> Forall cents_ok recs ->
+  interp false d rb recs = Some rb1 ->
+  exists rb1', interp_text false d rb (map render recs) = Some rb1' /\
+               Forall2 rack_eqv (rb_racks rb1) (rb_racks rb1').
+Proof. exact rendered_exact. Qed.
+Print Assumptions C01_rendered_exact.
+
+(** C01_rendered_bound: without the two-decimals hypothesis every well of the robot that executed the file is
+    within n / 200 of the robot that executed the records, n = number of A / D records addressing the well *)
+Theorem C01_rendered_bound : forall d rb recs rb1,
+  Forall rec_valid recs -> Forall r_int recs ->
+  interp false d rb recs = Some rb1 ->
+  exists rb1', interp_text false d rb (map render recs) = Some rb1' /\
+    racks_near (fun k j => inject_Z (Z.of_nat
+                  (hits d (map rk_name (rb_racks rb)) (map rk_geom (rb_racks rb)) recs k j)) / 200)
+               (rb_racks rb1) (rb_racks rb1').
+Proof. exact rendered_bound. Qed.
+Print Assumptions C01_rendered_bound.
+
+(** the general fact behind both: records that are [e]-close replayed on robots that are [E]-close *)
+Theorem C01_interp_near : forall e d, 0 <= e -> forall recs recs', Forall2 (srec_near e) recs recs' ->
+  forall E rb rb' rb1, racks_near E (rb_racks rb) (rb_racks rb') -> interp false d rb recs = Some rb1 ->
+  exists rb1', interp false d rb' recs' = Some rb1' /\
+    racks_near (fun k j => E k j + e * inject_Z (Z.of_nat
+                  (hits d (map rk_name (rb_racks rb)) (map rk_geom (rb_racks rb)) recs k j)))
+               (rb_racks rb1) (rb_racks rb1').
+Proof. exact interp_near. Qed.
+Print Assumptions C01_interp_near.
+
+(** the records of a program of worklist calls are valid *)
+Theorem C01_run_records_valid : forall s ops,
+  w_recs (st_wl s) = [] -> forallb wl_op ops = true -> Forall op_text_ok ops ->
+  Forall rec_valid (w_recs (st_wl (fst (run s ops)))) /\ Forall r_int (w_recs (st_wl (fst (run s ops)))).
+Proof. exact run_records_valid. Qed.
+Print Assumptions C01_run_records_valid.
+
+(** with C01_run: executing the TEXT of the worklist of a program reproduces the tracked volumes exactly
+    whenever all pipetted volumes have at most two decimals ... *)
+Theorem C01_run_text_exact : forall s0 ops,
+  good_state s0 -> w_recs (st_wl s0) = [] ->
+  forallb wl_op ops = true -> Forall (op_ok s0) ops -> Forall op_text_ok ops ->
+  Forall (fun e => e = None) (snd (run s0 ops)) ->
+  Forall cents_ok (w_recs (st_wl (fst (run s0 ops)))) ->
+  exists rb, interp_text false (w_dev (st_wl s0)) (robot_of (st_lw s0))
+               (map render (w_recs (st_wl (fst (run s0 ops))))) = Some rb /\
+             sim (fst (run s0 ops)) rb.
+Proof. exact run_file_exact. Qed.
+Print Assumptions C01_run_text_exact.
+
+(** ... and in general within n / 200 per well *)
+Theorem C01_run_text_bound : forall s0 ops,
+  good_state s0 -> w_recs (st_wl s0) = [] ->
+  forallb wl_op ops = true -> Forall (op_ok s0) ops -> Forall op_text_ok ops ->
+  Forall (fun e => e = None) (snd (run s0 ops)) ->
+  exists rb, interp_text false (w_dev (st_wl s0)) (robot_of (st_lw s0))
+               (map render (w_recs (st_wl (fst (run s0 ops))))) = Some rb /\
+    forall k L r j, nth_error (st_lw (fst (run s0 ops))) k = Some L -> nth_error (rb_racks rb) k = Some r ->
+      rk_name r = lw_name L /\ rk_geom r = lw_geom L /\
+      Qabs (nth j (rk_vols r) 0 - vol_at L j) <=
+      inject_Z (Z.of_nat (hits (w_dev (st_wl s0)) (map lw_name (st_lw s0)) (map lw_geom (st_lw s0))
+                               (w_recs (st_wl (fst (run s0 ops)))) k j)) / 200.
+Proof. exact run_file_bound. Qed.
+Print Assumptions C01_run_text_bound.
+
+(** non-vacuity: the example program above; its file, executed, gives the tracked volumes *)
+Example C01_example_text_hyps :
+  Forall op_text_ok C01_ex_prog /\
+  Forall cents_ok (w_recs (st_wl (fst (run (ex_state Evo) C01_ex_prog)))).
+Proof.
+  split.
+  - unfold C01_ex_prog. repeat (apply Forall_cons || apply Forall_nil); try exact I.
+    cbn. split; [lia|]. split; [lia|]. eexists. reflexivity.
+  - set (recs := w_recs _). vm_compute in recs. subst recs.
+    repeat (apply Forall_cons || apply Forall_nil); cbn [cents_ok ad_volume]; try exact I;
+      match goal with |- exists z, ?v * 100 == _ => exists (Qnum (Qred (v * 100))); vm_compute; reflexivity end.
+Qed.
+
+Example C01_example_text_run :
+  let r := run (ex_state Evo) C01_ex_prog in
+  match interp_text false Evo (robot_of (st_lw (ex_state Evo))) (map render (w_recs (st_wl (fst r)))) with
+  | Some rb => map (fun r0 => map Qred (rk_vols r0)) (rb_racks rb) = [[1000; 2020; 50; 75]; [450; 500]]
+  | None => False
+  end.
+Proof. vm_compute. reflexivity. Qed.
+
+(** a volume with three decimals: 12.345 is written as 12.34; the robot that executes the file is 1/200 off in
+    the two wells, each addressed by one record *)
+Definition C01_ex_prog3 : list op :=
+  [OTransfer 0 (A1 ["A01"%string]) 0 (A1 ["A02"%string]) (A1 [12345 # 1000]) None SFlush "auto"%string kw_default].
+
+Example C01_example_text_bound :
+  let r := run (ex_state Evo) C01_ex_prog3 in
+  snd r = [None] /\
+  map render (w_recs (st_wl (fst r))) = ["A;big;;;1;;12.34;;;;"; "D;big;;;3;;12.34;;;;"; "F;"]%string /\
+  map lw_vols (st_lw (fst r)) = [[597531 # 200; 2469 # 200; 100; 0]; [500; 500]] /\
+  match interp_text false Evo (robot_of (st_lw (ex_state Evo))) (map render (w_recs (st_wl (fst r)))) with
+  | Some rb => map (fun r0 => map Qred (rk_vols r0)) (rb_racks rb) = [[149383 # 50; 617 # 50; 100; 0]; [500; 500]]
+  | None => False
+  end /\
+  map (fun j => hits Evo (map lw_name (st_lw (ex_state Evo))) (map lw_geom (st_lw (ex_state Evo)))
+                     (w_recs (st_wl (fst r))) 0 j) [0; 1; 2; 3]%nat = [1; 1; 0; 0]%nat.
+Proof. vm_compute. repeat split; reflexivity. Qed.
+
+(* ================================================================== composition after distribute *)
+
+(** Definitions (Proofs/RefinementTextProofs.v): [closed V f v g n]: [f] for [n = 0], otherwise
+    (V f + n v g) / (V + n v) — the fraction after [n] additions of volume [v] with fraction [g] to a well that
+    held [V] with fraction [f]; [cnt j l]: occurrences of [j] in [l];
+    [closedg V f v g n] = [f] if [v == 0], [closed V f v g n] otherwise;
+    [trd_op o]: transfer, distribute or a record-only call. *)
+
+(** the closed form is what one more addition of the same liquid gives: independent of the order of the
+    additions to different wells, which is all the R record and the tracking differ in *)
+Theorem C01_closed_step : forall V f v g n, 0 <= V -> 0 < v ->
+  closed (V + v) ((V * f + v * g) / (V + v)) v g n == closed V f v g (S n).
+Proof. exact closed_step. Qed.
+Print Assumptions C01_closed_step.
+
+(** the tracking: [add_loop] over wells with indices [idxs] (in the order given), the same volume and liquid *)
+Theorem C01_composition_add_many : forall v c, 0 < v -> NoDup (map fst c) -> (forall k, 0 <= fget k c) ->
+  forall L items L' e, add_run L items L' e -> e = None ->
+  Forall (fun it : aitem => snd (fst it) = XQ v /\ snd it = Some c) items ->
+  wf_shape L -> (forall j, 0 <= vol_at L j) -> cinv L ->
+  exists idxs, events_of L (map fst items) = Some (evs_of v idxs) /\ cinv L' /\
+    forall k j, cfrac (lw_comp L') k j ==
+                closed (vol_at L j) (cfrac (lw_comp L) k j) v (fget k c) (cnt j idxs).
+Proof. exact add_run_cfrac. Qed.
+Print Assumptions C01_composition_add_many.
+
+(** the robot: [dispense_all] with a loaded tip over positions with indices [idxs] (ascending positions) *)
+Theorem C01_composition_dispense_all : forall c d label v g k, 0 < v -> NoDup (map fst g) ->
+  forall ps idxs rb r rb',
+  find_rack (rb_racks rb) label = Some k -> nth_error (rb_racks rb) k = Some r -> rb_tip rb = Some g ->
+  Forall2 (fun p i => unpos d (rk_geom r) p = Some i /\ (i < length (rk_vols r))%nat) ps idxs ->
+  arrays_len (length (rk_vols r)) (rk_comp r) -> NoDup (map fst (rk_comp r)) ->
+  (forall j, 0 <= nth j (rk_vols r) 0) ->
+  dispense_all c d rb label ps v = Some rb' ->
+  exists r', nth_error (rb_racks rb') k = Some r' /\
+    (forall k', k' <> k -> nth_error (rb_racks rb') k' = nth_error (rb_racks rb) k') /\
+    arrays_len (length (rk_vols r')) (rk_comp r') /\ NoDup (map fst (rk_comp r')) /\
+    forall kk j, cfrac (rk_comp r') kk j ==
+                 closed (nth j (rk_vols r) 0) (cfrac (rk_comp r) kk j) v (fget kk g) (cnt j idxs).
+Proof. exact dispense_all_cfrac. Qed.
+Print Assumptions C01_composition_dispense_all.
+
+(** a zero volume (which [distribute] accepts) changes no fraction, on either side *)
+Theorem C01_composition_add_zero : forall L i v c k j,
+  arrays_len (n_wells (lw_geom L)) (lw_comp L) -> (i < n_wells (lw_geom L))%nat ->
+  NoDup (map fst (lw_comp L)) -> NoDup (map fst c) ->
+  (forall k0, 0 <= cfrac (lw_comp L) k0 i) -> v == 0 ->
+  cfrac (lw_comp (add_one L i v (Some c))) k j == cfrac (lw_comp L) k j.
+Proof. exact add_one_cfrac0. Qed.
+Print Assumptions C01_composition_add_zero.
+
+Theorem C01_composition_mix_zero : forall r i V v g k j,
+  arrays_len (length (rk_vols r)) (rk_comp r) -> (i < length (rk_vols r))%nat -> v == 0 ->
+  cfrac (mix_into r i V v g) k j == cfrac (rk_comp r) k j.
+Proof. exact mix_into_cfrac0. Qed.
+Print Assumptions C01_composition_mix_zero.
+
+(** C01_composition_distribute: an accepted [distribute] (any volume the method accepts, zero included) with
+    pairwise distinct destination positions, plate or trough destination (several positions of a trough column
+    share one real well; source and destination may be the same trough): volumes AND compositions of the
+    replayed robot agree with the tracked state *)
+Theorem C01_composition_distribute : forall s ks kd dwells a s' rb,
+  good_state s -> cstate s -> csim s rb -> distribute_dev_ok s ks -> dst_positions_distinct s kd dwells ->
+  distribute s ks kd dwells a = (s', None) ->
+  exists new rb', st_wl s' = emit (st_wl s) new /\
+    interp true (w_dev (st_wl s)) rb new = Some rb' /\ csim s' rb' /\ cstate s'.
+Proof. exact distribute_csim. Qed.
+Print Assumptions C01_composition_distribute.
+
+(** the plate-destination case on an EvoWorklist (an instance; the plate hypothesis is not needed) *)
+Theorem C01_composition_distribute_plate : forall s ks kd dwells a s' rb,
+  good_state s -> cstate s -> csim s rb -> w_dev (st_wl s) = Evo ->
+  (forall Ld, nth_error (st_lw s) kd = Some Ld -> g_vrows (lw_geom Ld) = None) ->
+  dst_positions_distinct s kd dwells ->
+  distribute s ks kd dwells a = (s', None) ->
+  exists new rb', st_wl s' = emit (st_wl s) new /\
+    interp true Evo rb new = Some rb' /\ csim s' rb' /\ cstate s'.
+Proof. exact distribute_csim_plate. Qed.
+Print Assumptions C01_composition_distribute_plate.
+
+(** programs of transfers, distributes and record-only calls, every call accepted *)
+Theorem C01_composition_run_distribute : forall s0 ops,
+  good_state s0 -> cstate s0 -> w_recs (st_wl s0) = [] -> forallb trd_op ops = true ->
+  Forall (op_ok s0) ops ->
+  Forall (fun e => e = None) (snd (run s0 ops)) ->
+  exists rb, interp false (w_dev (st_wl s0)) (robot_of (st_lw s0)) (w_recs (st_wl (fst (run s0 ops)))) = Some rb /\
+             csim (fst (run s0 ops)) rb.
+Proof. exact run_composition_distribute. Qed.
+Print Assumptions C01_composition_run_distribute.
+
+(** non-vacuity: a transfer into the trough, a distribute from trough column 1 into three virtual rows of trough
+    column 2 (three positions, one real well: source and destination are the same labware), a distribute from
+    column 2 to the plate, a distribute of volume 0 *)
+Definition C01_ex_prog_d : list op :=
+  [OTransfer 0 (A1 ["A01"%string]) 1 (A1 ["A01"%string]) (A1 [100]) None SFlush "auto"%string kw_default;
+   ODistribute 1 1 (A1 ["C02"; "A02"; "B02"]%string) (ex_dargs 0 10);
+   ODistribute 1 0 (A1 ["B02"; "A02"]%string) (ex_dargs 1 30);
+   ODistribute 1 0 (A1 ["B01"]%string) (ex_dargs 0 0)].
+
+Example C01_example_distribute_hyps :
+  forallb trd_op C01_ex_prog_d = true /\ Forall (op_ok (ex_state Evo)) C01_ex_prog_d.
+Proof.
+  split; [reflexivity|].
+  constructor; [exact I|]. constructor; [|constructor; [|constructor; [|constructor]]].
+  - split; [left; reflexivity|]. intros Ld ps HLd Hps. cbn in HLd. injection HLd as <-.
+    vm_compute in Hps. injection Hps as <-.
+    repeat (constructor; [cbn; intuition discriminate|]). constructor.
+  - split; [left; reflexivity|]. intros Ld ps HLd Hps. cbn in HLd. injection HLd as <-.
+    vm_compute in Hps. injection Hps as <-.
+    repeat (constructor; [cbn; intuition discriminate|]). constructor.
+  - split; [left; reflexivity|]. intros Ld ps HLd Hps. cbn in HLd. injection HLd as <-.
+    vm_compute in Hps. injection Hps as <-.
+    repeat (constructor; [cbn; intuition discriminate|]). constructor.
+Qed.
+
+Example C01_example_distribute_run :
+  let r := run (ex_state Evo) C01_ex_prog_d in
+  snd r = [None; None; None; None] /\
+  map render (w_recs (st_wl (fst r))) =
+    ["A;big;;;1;;100.00;;;;"; "D;T4;;;1;;100.00;;;;"; "F;";
+     "R;T4;;;1;4;T4;;;5;7;10;W;1;1;0"; "R;T4;;;5;8;big;;;3;4;30;W;1;1;0";
+     "R;T4;;;1;4;big;;;2;2;0;W;1;1;0"]%string /\
+  map lw_vols (st_lw (fst r)) = [[2900; 30; 100; 30]; [570; 470]] /\
+  match interp false Evo (robot_of (st_lw (ex_state Evo))) (w_recs (st_wl (fst r))) with
+  | Some rb => forallb (fun p => C01_fractions_agree (fst p) (snd p)) (combine (st_lw (fst r)) (rb_racks rb)) = true /\
+               map (fun r0 => map Qred (map (fun j => cfrac (rk_comp r0) "big.A01"%string j) [0; 1; 2; 3]%nat))
+                   (rb_racks rb) = [[1; 1 # 106; 0; 1 # 106]; [1 # 6; 1 # 106; 0; 0]]
+  | None => False
+  end.
+Proof. vm_compute. repeat split; reflexivity. Qed.
